@@ -370,8 +370,21 @@ def summaries(t, m, report):
         os.unlink(src)
 
 
+def starts():
+    """the common start tables plus one whose ids look like format directives / report syntax"""
+    from biom import Table
+    from ..model import M
+    S = dict(OPS.start_tables())
+    D = [[1, 0, 2.5], [0, 4, 3]]
+    o, c = ['GC50%', 'rep%d: 7'], ['10%%s', '%(a)s', 'ü 3: x']
+    omd = [{'k': '50%'}, {'k': '%s'}]
+    S['oddids2x3'] = (lambda: Table(np.array(D, float), list(o), list(c), [dict(e) for e in omd], None),
+                      M(o, c, D, omd, None))
+    return S
+
+
 def spec(depth):
-    return E.Spec(OPS.start_tables(), OPS.all_ops(), depth, check_ops=(), on_state=summaries,
+    return E.Spec(starts(), OPS.all_ops(), depth, check_ops=(), on_state=summaries,
                   label='d%d' % depth)
 
 
